@@ -19,7 +19,7 @@ RULE = ("cases = small-domain flat programs with 1-3 hard and 1-5 soft statement
 ASSUMPTIONS = [
     "a soft nested under conditions is the soft (AND guards) -> expr; guards of else-branches are the negated earlier conditions",
     "the order between softs of different class blocks is not fixed by the property: any interleaving preserving each block's order is accepted, inline softs last (highest priority)",
-    "every guard and every soft expression references a field (literal-only guards: recorded finding of C02's family)",
+    "every guard and every soft expression references a field (soft statements without a field are not generated)",
 ]
 
 
